@@ -18,4 +18,6 @@ let table : (string * (val0 -> val0)) list = [
   "chk_c10_neg", chk_c10_neg;
   "chk_c13_records", chk_c13_records;
   "chk_c13_ws", chk_c13_ws;
+  "chk_c11", chk_c11;
+  "enum_c11", enum_c11;
 ]
